@@ -441,6 +441,8 @@ pub struct Outcome {
     pub viol: Option<(String, String)>,
     /// API calls made on the image (open, check, dump, ...)
     pub calls: u32,
+    /// the call that was executing when the outcome was decided
+    pub phase: &'static str,
 }
 
 fn which_cp(d: &Dump, cps: &[DbModel]) -> Option<usize> {
@@ -448,52 +450,63 @@ fn which_cp(d: &Dump, cps: &[DbModel]) -> Option<usize> {
     (0..cps.len()).rev().find(|i| d.matches(&cps[*i]))
 }
 
-/// Opens `bytes`, checks, reads; everything inside one panic guard. `record_reads` returns the
-/// read set of the execution.
-fn exec_image(cfg: Cfg, bytes: Vec<u8>, cps: &[DbModel], hints: &Tables, record_reads: bool) -> (Outcome, Vec<(u64, u64)>) {
+fn err_key(msg: &str) -> String {
+    // error texts quote corrupt bytes; the class is the leading, fixed part of the message
+    let k = panic_key(msg);
+    let cut = k.char_indices().nth(72).map(|(i, _)| i).unwrap_or(k.len());
+    k[..cut].to_string()
+}
+
+/// Opens `bytes`, checks, reads (and closes, if `close`); the code under test runs inside panic
+/// guards. `record_reads` returns the read set of the execution.
+///
+/// `close == false` (quick tier): the clean close (a full commit of the allocator state, more
+/// expensive than open + check + read together) is not part of the procedure; the database is
+/// torn down with the backend failing every call, and whatever that teardown does is ignored.
+fn exec_image(
+    cfg: Cfg,
+    bytes: Vec<u8>,
+    cps: &[DbModel],
+    hints: &Tables,
+    record_reads: bool,
+    close: bool,
+) -> (Outcome, Vec<(u64, u64)>) {
     let backend = MemBackend::from_image(bytes);
     if record_reads {
         backend.lock().read_set = Some(vec![]);
     }
     let phase = std::cell::Cell::new("open");
     let calls = std::cell::Cell::new(0u32);
+    let mut slot: Option<redb::Database> = None;
     let r = par::guarded(|| -> Outcome {
-        let mk = |class, cp, detail: String, viol| Outcome { class, cp, detail, viol, calls: 0 };
+        let mk = |class, cp, detail: String, viol| Outcome { class, cp, detail, viol, calls: 0, phase: "" };
         calls.set(calls.get() + 1);
-        let mut db = match cfg.builder().create_with_backend(backend.clone()) {
-            Ok(db) => db,
-            Err(e) => return mk(Class::OpenErr, None, panic_key(&e.to_string()), None),
+        let db = match cfg.builder().create_with_backend(backend.clone()) {
+            Ok(db) => slot.insert(db),
+            Err(e) => return mk(Class::OpenErr, None, err_key(&e.to_string()), None),
         };
         phase.set("check_integrity");
         calls.set(calls.get() + 1);
         let first = match db.check_integrity() {
             Ok(b) => b,
-            Err(e) => {
-                phase.set("close");
-                drop(db);
-                return mk(Class::CheckErr, None, panic_key(&e.to_string()), None);
-            }
+            Err(e) => return mk(Class::CheckErr, None, err_key(&e.to_string()), None),
         };
         phase.set("read");
         calls.set(calls.get() + 1);
-        let d1 = match dump::dump(&db, Some(hints)) {
+        let d1 = match dump::dump(db, Some(hints)) {
             Ok(d) => d,
             Err(e) => {
-                phase.set("close");
-                drop(db);
                 let key = if first { "corruptx:read_failed_after_ok_true" } else { "corruptx:read_failed_after_repair" };
                 return mk(
                     Class::DumpErr,
                     None,
-                    panic_key(&e),
+                    err_key(&e),
                     Some((key.to_string(), format!("check_integrity() returned Ok({first}) but reading the database then failed: {e}"))),
                 );
             }
         };
         let cp = which_cp(&d1, cps);
         if first {
-            phase.set("close");
-            drop(db);
             if cp.is_none() {
                 return mk(
                     Class::Clean,
@@ -530,7 +543,7 @@ fn exec_image(cfg: Cfg, bytes: Vec<u8>, cps: &[DbModel], hints: &Tables, record_
                 };
                 if viol.is_none() {
                     viol = Some((
-                        format!("corruptx:second_check_not_clean:{}", panic_key(&s)),
+                        format!("corruptx:second_check_not_clean:{}", err_key(&s)),
                         format!("after a reported repair (Ok(false)) the second check_integrity() returned {s}"),
                     ));
                 }
@@ -539,7 +552,7 @@ fn exec_image(cfg: Cfg, bytes: Vec<u8>, cps: &[DbModel], hints: &Tables, record_
         if second.is_ok() {
             phase.set("second read");
             calls.set(calls.get() + 1);
-            match dump::dump(&db, Some(hints)) {
+            match dump::dump(db, Some(hints)) {
                 Ok(d2) => {
                     if d2 != d1 && viol.is_none() {
                         viol = Some((
@@ -558,27 +571,50 @@ fn exec_image(cfg: Cfg, bytes: Vec<u8>, cps: &[DbModel], hints: &Tables, record_
                 }
             }
         }
-        phase.set("close");
-        drop(db);
         mk(Class::Repaired, cp, String::new(), viol)
     });
-    let reads = if record_reads { backend.lock().read_set.take().unwrap_or_default() } else { vec![] };
-    let mut out = match r {
-        Ok(o) => o,
-        Err(site) => {
-            let key = panic_key(&site);
-            Outcome {
-                class: Class::Panic,
-                cp: None,
-                detail: key.clone(),
-                viol: Some((
-                    format!("corruptx:panic:{key}"),
-                    format!("panic during {} of an altered file (damage neither reported nor harmless): {site}", phase.get()),
-                )),
-                calls: 0,
-            }
+    let panic_outcome = |site: &str, phase: &'static str| {
+        // keep file:line, normalise the message
+        let detail = match site.find(": ") {
+            Some(i) => format!("{}: {}", &site[..i], err_key(&site[i + 2..])),
+            None => err_key(site),
+        };
+        Outcome {
+            class: Class::Panic,
+            cp: None,
+            detail,
+            viol: Some((
+                format!("corruptx:panic:{}", panic_key(site)),
+                format!("panic during {phase} of an altered file (damage neither reported nor harmless): {site}"),
+            )),
+            calls: 0,
+            phase,
         }
     };
+    let mut out = match r {
+        Ok(mut o) => {
+            o.phase = phase.get();
+            o
+        }
+        Err(site) => panic_outcome(&site, phase.get()),
+    };
+    // teardown
+    if let Some(db) = slot.take() {
+        let counted = close && out.class != Class::Panic;
+        if !counted {
+            // verdict already formed: make the teardown cheap and ignore what it does
+            backend.lock().fault_at = Some((0, crate::backend::FaultMode::Permanent));
+        } else {
+            calls.set(calls.get() + 1);
+        }
+        let r = par::guarded(move || drop(db));
+        if let (true, Err(site)) = (counted, r) {
+            if out.viol.is_none() {
+                out = panic_outcome(&site, "close");
+            }
+        }
+    }
+    let reads = if record_reads { backend.lock().read_set.take().unwrap_or_default() } else { vec![] };
     out.calls = calls.get();
     (out, reads)
 }
@@ -659,7 +695,7 @@ pub fn build_base(spec: &BaseSpec) -> Result<Base, String> {
     live.sort_by_key(|p| p.1);
     live.dedup();
     // the unaltered execution: outcome must be clean with the last commit point; read set
-    let (o, reads) = exec_image(spec.cfg, image.clone(), &cps, &hints, true);
+    let (o, reads) = exec_image(spec.cfg, image.clone(), &cps, &hints, true, true);
     if o.class != Class::Clean || o.cp != Some(cps.len() - 1) || o.viol.is_some() {
         return Err(format!(
             "unaltered {:?} image of history {hname} is not certified clean with the last commit point: {:?}",
@@ -790,6 +826,17 @@ fn describe_alt(b: &Base, a: &Alt) -> String {
 // child process
 // ------------------------------------------------------------------------------------------------
 
+const PHASES: [&str; 6] = ["open", "check_integrity", "read", "second check_integrity", "second read", "close"];
+
+/// whether the clean close is part of the per-image procedure (thorough tier; VH_CORRUPTX_CLOSE overrides)
+fn with_close(tier: &str) -> bool {
+    match std::env::var("VH_CORRUPTX_CLOSE").ok().as_deref() {
+        Some("1") => true,
+        Some("0") => false,
+        _ => tier != "quick",
+    }
+}
+
 fn clean(s: &str) -> String {
     s.replace(['\t', '\n', '\r'], " ")
 }
@@ -810,6 +857,10 @@ fn child_main(spec: &str) -> i32 {
     unsafe {
         let lim = libc::rlimit { rlim_cur: CHILD_AS_LIMIT, rlim_max: CHILD_AS_LIMIT };
         libc::setrlimit(libc::RLIMIT_AS, &lim);
+        // every image is a fresh ~1 MB buffer: keep such buffers on the heap instead of mapping
+        // and unmapping (and page-faulting) them every time
+        libc::mallopt(libc::M_MMAP_THRESHOLD, 256 << 20);
+        libc::mallopt(libc::M_TRIM_THRESHOLD, 512 << 20);
         // no core files for expected aborts
         let z = libc::rlimit { rlim_cur: 0, rlim_max: 0 };
         libc::setrlimit(libc::RLIMIT_CORE, &z);
@@ -837,14 +888,15 @@ fn child_main(spec: &str) -> i32 {
             libc::alarm(PER_IMAGE_ALARM_S);
         }
         let bytes = base.space.alts[idx].apply(&base.image);
-        let (o, _) = exec_image(base.spec.cfg, bytes, &base.cps, &base.hints, false);
+        let (o, _) = exec_image(base.spec.cfg, bytes, &base.cps, &base.hints, false, with_close(tier));
         let (vk, vm) = o.viol.clone().unwrap_or_default();
         let _ = writeln!(
             w,
-            "R\t{idx}\t{}\t{}\t{}\t{}\t{}\t{}",
+            "R\t{idx}\t{}\t{}\t{}\t{}\t{}\t{}\t{}",
             o.class.code(),
             o.cp.map(|c| c as i64).unwrap_or(-1),
             o.calls,
+            o.phase,
             clean(&o.detail),
             clean(&vk),
             clean(&vm)
@@ -862,15 +914,16 @@ fn child_main(spec: &str) -> i32 {
 
 fn parse_line(l: &str) -> Option<(usize, Outcome)> {
     let f: Vec<&str> = l.split('\t').collect();
-    if f.len() != 8 || f[0] != "R" {
+    if f.len() != 9 || f[0] != "R" {
         return None;
     }
     let idx = f[1].parse().ok()?;
     let class = Class::parse(f[2])?;
     let cp: i64 = f[3].parse().ok()?;
     let calls = f[4].parse().ok()?;
-    let viol = if f[6].is_empty() { None } else { Some((f[6].to_string(), f[7].to_string())) };
-    Some((idx, Outcome { class, cp: if cp < 0 { None } else { Some(cp as usize) }, detail: f[5].to_string(), viol, calls }))
+    let phase = PHASES.iter().find(|p| **p == f[5]).copied()?;
+    let viol = if f[7].is_empty() { None } else { Some((f[7].to_string(), f[8].to_string())) };
+    Some((idx, Outcome { class, cp: if cp < 0 { None } else { Some(cp as usize) }, detail: f[6].to_string(), viol, calls, phase }))
 }
 
 /// Runs alterations [from,to) of base `bi` in child processes; a child that dies is replaced and
@@ -944,6 +997,7 @@ fn run_chunk(tier: &str, bi: usize, from: usize, to: usize, total: usize) -> Res
                     format!("the process executing an altered file died ({how}); stderr: {}", clean(&tail)),
                 )),
                 calls: 1,
+                phase: "open",
             },
         ));
         next += 1;
@@ -961,6 +1015,8 @@ fn run_chunk(tier: &str, bi: usize, from: usize, to: usize, total: usize) -> Res
 
 #[derive(Default)]
 struct ClassInfo {
+    key: String,
+    phases: BTreeMap<&'static str, u64>,
     count: u64,
     /// (rank, base, alteration index) of the smallest alteration showing it
     min: Option<((usize, u64), usize, usize)>,
@@ -992,7 +1048,17 @@ pub fn run(tier: &str) -> i32 {
         rep.cov("exhaustive", json!(false));
         return rep.finish();
     }
-    // work list: chunks of alterations, largest bases first is not needed: chunks are uniform
+    // evidence for the reduction (not its justification): a spread of positions outside the read
+    // set, altered and executed in-process, must reproduce the unaltered outcome and read set
+    let validated: Vec<Result<u64, String>> = par::map(&bases, |_, b| validate_reduction(b));
+    let mut reduction_validation_runs = 0u64;
+    for (b, v) in bases.iter().zip(validated) {
+        match v {
+            Ok(n) => reduction_validation_runs += n,
+            Err(e) => rep.machinery_errors.push(format!("read-set reduction does not hold on {}: {e}", b.name)),
+        }
+    }
+    // work list: chunks of alterations
     let mut chunks: Vec<(usize, usize, usize)> = vec![];
     for (bi, b) in bases.iter().enumerate() {
         let n = b.space.alts.len();
@@ -1025,6 +1091,9 @@ pub fn run(tier: &str) -> i32 {
     let mut distinct: BTreeSet<(usize, Class, Option<usize>, String)> = BTreeSet::new();
     let mut distinct_samples: BTreeMap<(usize, Class, Option<usize>, String), (usize, usize, u64)> = BTreeMap::new();
     let mut viols: BTreeMap<String, ClassInfo> = BTreeMap::new();
+    // exact panic sites (file:line + normalised message)
+    let mut sites: BTreeMap<String, ClassInfo> = BTreeMap::new();
+    let mut phase_hist: BTreeMap<&'static str, BTreeMap<&'static str, u64>> = BTreeMap::new();
     let mut clean_older = 0u64;
     let mut nontrivial = 0u64;
     for (ci, r) in results.into_iter().enumerate() {
@@ -1054,15 +1123,23 @@ pub fn run(tier: &str) -> i32 {
                         e.2 += 1;
                         distinct.insert(k);
                     }
+                    *phase_hist.entry(o.class.code()).or_default().entry(o.phase).or_default() += 1;
                     if let Some((key, msg)) = &o.viol {
-                        let ci = viols.entry(key.clone()).or_default();
-                        ci.count += 1;
-                        ci.per_family[fam] += 1;
-                        ci.bases.insert(bi);
-                        let cand = (alt.rank(&b.image), bi, idx);
-                        if ci.min.map(|m| cand < m).unwrap_or(true) {
-                            ci.min = Some(cand);
-                            ci.msg = msg.clone();
+                        let mut targets = vec![viols.entry(key.clone()).or_default()];
+                        if o.class == Class::Panic {
+                            targets.push(sites.entry(o.detail.clone()).or_default());
+                        }
+                        for ci in targets {
+                            ci.key = key.clone();
+                            ci.count += 1;
+                            ci.per_family[fam] += 1;
+                            ci.bases.insert(bi);
+                            *ci.phases.entry(o.phase).or_default() += 1;
+                            let cand = (alt.rank(&b.image), bi, idx);
+                            if ci.min.map(|m| cand < m).unwrap_or(true) {
+                                ci.min = Some(cand);
+                                ci.msg = msg.clone();
+                            }
                         }
                     }
                 }
@@ -1081,6 +1158,7 @@ pub fn run(tier: &str) -> i32 {
             "key": key,
             "occurrences": ci.count,
             "per_family": fams,
+            "phases": ci.phases,
             "base_images_affected": ci.bases.len(),
             "smallest_alteration": describe_alt(b, alt),
             "smallest_alteration_base": b.name,
@@ -1099,6 +1177,24 @@ pub fn run(tier: &str) -> i32 {
                 "occurrences": ci.count,
             }),
         );
+    }
+
+    let mut site_table = vec![];
+    for (site, ci) in &sites {
+        let Some((_, bi, idx)) = ci.min else { continue };
+        let b = &bases[bi];
+        let fams: BTreeMap<&str, u64> = FAMILIES.iter().zip(ci.per_family.iter()).filter(|(_, n)| **n > 0).map(|(f, n)| (*f, *n)).collect();
+        site_table.push(json!({
+            "site": site,
+            "key": ci.key,
+            "occurrences": ci.count,
+            "per_family": fams,
+            "phases": ci.phases,
+            "base_images_affected": ci.bases.len(),
+            "smallest_alteration": describe_alt(b, &b.space.alts[idx]),
+            "smallest_alteration_base": b.name,
+            "replay_cmd": format!("corruptx_test one {tier} {bi} {idx}"),
+        }));
     }
 
     // ---- evidence
@@ -1162,9 +1258,13 @@ pub fn run(tier: &str) -> i32 {
     rep.cov("clean_with_older_commit_point", json!(clean_older));
     rep.cov("distinct_nontrivial", json!(distinct.len()));
     rep.cov("violation_classes", json!(viol_table));
+    rep.cov("panic_sites", json!(site_table));
+    rep.cov("phase_of_outcome", json!(phase_hist));
+    rep.cov("reduction_validation_runs", json!(reduction_validation_runs));
+    rep.cov("close_is_part_of_the_procedure", json!(with_close(tier)));
     rep.cov(
         "rule",
-        json!("base images = histories x {closed, crash-stopped} x configs; per base image every alteration of: (1) each byte of the read set x {8 single-bit flips, :=0x00, :=0xFF} (patterns equal to the original or to one of the flips dropped), (2) 0x00/0xFF runs of length 2,4,8,16,64,512 at every run-length-aligned position inside the 320-byte header and every live page (pages referenced by the independent decoder), (3) every pair of equal-sized live pages swapped, (4) truncation to every page boundary of the last region, extension by one page of 0x00 / 0xFF. An alteration that keeps the file length and touches no byte of the read set (bytes served while the unaltered image is opened, checked, read and closed) is counted, not executed: the execution is identical. A case is non-trivial when its outcome is anything but `Ok(true)` with the contents of the last commit point; distinct_nontrivial counts distinct (family, outcome class, commit point served, normalised error text / panic site)."),
+        json!("base images = histories x {closed, crash-stopped} x configs; per base image every alteration of: (1) each byte of the read set x {8 single-bit flips, :=0x00, :=0xFF} (patterns equal to the original or to one of the flips dropped), (2) 0x00/0xFF runs of length 2,4,8,16,64,512 at every run-length-aligned position inside the 320-byte header and every live page (pages referenced by the independent decoder), (3) every pair of equal-sized live pages swapped, (4) truncation to every page boundary of the last region, extension by one page of 0x00 / 0xFF. An alteration that keeps the file length and touches no byte of the read set (bytes served while the unaltered image is opened, checked, read and closed) is counted, not executed: the execution is identical. Per altered image: open, check_integrity(), read everything through the public API, after Ok(false) a second check_integrity() and read; in the thorough tier also the clean close (in the quick tier the database is torn down with a failing backend and the teardown is ignored). A case is non-trivial when its outcome is anything but `Ok(true)` with the contents of the last commit point; distinct_nontrivial counts distinct (family, outcome class, commit point served, normalised error text / panic site)."),
     );
     rep.cov("samples", json!(samples));
     rep.cov("exhaustive", json!(complete));
@@ -1181,6 +1281,63 @@ pub fn run(tier: &str) -> i32 {
     rep.assumptions.push(format!("children run with an address-space limit of {CHILD_AS_LIMIT} bytes; an allocation beyond it is the outcome class Abort"));
     rep.assumptions.push("release profile with debug-assertions and overflow-checks on: a failing debug_assert!/arithmetic overflow of redb counts as a panic".into());
     rep.finish()
+}
+
+/// Alters up to 48 evenly spread positions outside the read set (bit 0 flipped) and checks that
+/// outcome and read set are those of the unaltered image
+fn validate_reduction(b: &Base) -> Result<u64, String> {
+    let mut outside: Vec<(u64, u64)> = vec![];
+    let mut pos = 0u64;
+    for &(s, e) in &b.read_set {
+        if s > pos {
+            outside.push((pos, s));
+        }
+        pos = e;
+    }
+    if pos < b.image.len() as u64 {
+        outside.push((pos, b.image.len() as u64));
+    }
+    let total: u64 = outside.iter().map(|r| r.1 - r.0).sum();
+    if total == 0 {
+        return Ok(0);
+    }
+    let n = 48u64.min(total);
+    let mut runs = 0;
+    for i in 0..n {
+        // i-th of n evenly spread ordinals among the outside positions, plus both ends of ranges
+        let mut ord = i * (total - 1) / (n - 1).max(1);
+        let mut off = 0;
+        for &(s, e) in &outside {
+            if ord < e - s {
+                off = s + ord;
+                break;
+            }
+            ord -= e - s;
+        }
+        let mut img = b.image.clone();
+        img[off as usize] ^= 1;
+        let (o, reads) = exec_image(b.spec.cfg, img, &b.cps, &b.hints, true, true);
+        runs += 1;
+        if o.class != Class::Clean || o.cp != b.base_outcome.cp || o.viol.is_some() {
+            return Err(format!("altering byte {off} (outside the read set) changed the outcome to {o:?}"));
+        }
+        if merge_ranges(reads) != b.read_set {
+            return Err(format!("altering byte {off} (outside the read set) changed the read set"));
+        }
+    }
+    // the bytes adjacent to every read range
+    for &(s, e) in &outside {
+        for off in [s, e - 1] {
+            let mut img = b.image.clone();
+            img[off as usize] ^= 0x80;
+            let (o, _) = exec_image(b.spec.cfg, img, &b.cps, &b.hints, false, true);
+            runs += 1;
+            if o.class != Class::Clean || o.cp != b.base_outcome.cp || o.viol.is_some() {
+                return Err(format!("altering byte {off} (outside the read set) changed the outcome to {o:?}"));
+            }
+        }
+    }
+    Ok(runs)
 }
 
 /// Replays one case in-process with the panic message and a backtrace visible
